@@ -158,6 +158,11 @@ def main(ctx):
                                     'EmitRows']),
         's_carry_enc_key': dict(part='keylist', variant='CarryEncKey',
                                 maxblocks=2, invariants=['Independence']),
+        'encoding': dict(part='encoding', emit=True,
+                         invariants=['TypeOK', 'EncSound', 'EmitRows']),
+        's_prf_ignored': dict(part='encoding',
+                              variant='PrfIgnoredWithKeyLength',
+                              invariants=['EncSound']),
         's_any_hash': dict(part='priv', variant='any_hash', bcrypt=bcrypt,
                            invariants=['TableEquiv']),
         's_stop_at_junk': dict(part='scanpriv', variant='stop_at_junk',
@@ -175,6 +180,7 @@ def main(ctx):
         results = {n: f.result() for n, f in futs.items()}
     expect = {'s_replace_on_continue': 'UnfoldOK',
               's_carry_enc_key': 'Independence',
+              's_prf_ignored': 'EncSound',
               's_any_hash': 'TableEquiv', 's_stop_at_junk': 'ScanEquiv',
               's_wrong_pass': 'RoundTrip'}
     for n, res in results.items():
@@ -182,7 +188,7 @@ def main(ctx):
                            expect_violation=expect.get(n))
     rows = {n: rows_of(results[n]) for n in
             ('priv', 'pub', 'scanpriv', 'scanpub', 'chain', 'layout',
-             'keylist')}
+             'keylist', 'encoding')}
     for n, r in rows.items():
         ctx.require(len(r) > 50, f'{n}: only {len(r)} rows from TLC')
 
@@ -492,6 +498,14 @@ def main(ctx):
         scr = D.Scratch(tlc.WORK, 'c15_keylist_')
         try:
             keylists(ctx, D, scr, rows['keylist'], kts, quick, kf_sig, only)
+        finally:
+            scr.close()
+
+    # ---- 2g. encoding choices of foreign writers --------------------------------
+    if only.kind('encoding'):
+        scr = D.Scratch(tlc.WORK, 'c15_encoding_')
+        try:
+            encodings(ctx, D, scr, rows['encoding'], kts, quick, kf_sig, only)
         finally:
             scr.close()
 
@@ -902,6 +916,143 @@ def interop(ctx, D, scr, kts, quick, rnd, kf_sig):
     passphrase_sweep(ctx, D, scr, kts, quick, kf_sig, stats)
     certificates(ctx, D, scr, kts, quick, kf_sig, stats)
     ctx.notes.append(f'independent readers/writers: {stats}')
+
+
+def encodings(ctx, D, scr, rows, kts, quick, kf_sig, only):
+    """Files written by the harness's own encoder (hashlib / PyCA primitives,
+    nothing from asyncssh) for every encoding choice of the table.
+    Monitor: a legal encoding imports to the same key (and comment), a wrong
+    passphrase is refused, an illegal or merely tolerated encoding is either
+    refused with a ValueError-family exception or imported as the SAME key,
+    never as another key and never with another exception type.  openssl /
+    ssh-keygen confirm on a sample (and whenever asyncssh refuses a legal
+    file) that the generated file is legal."""
+    import asyncssh
+    stats = {'rows': 0, 'legal_imported': 0, 'reference_reader_asked': 0,
+             'refused': {}, 'lenient_accepts': {}, 'plain_ValueError': {}}
+    sample_every = 12 if quick else 1
+
+    def bump(d, key):
+        d[key] = d.get(key, 0) + 1
+
+    def reference_accepts(e, data, k, scheme):
+        stats['reference_reader_asked'] += 1
+        if scheme == 'openssh':
+            if not D.SSH_KEYGEN:
+                return None
+            f = scr.write('enc.key', data)
+            rc, out, _ = D.keygen(['-y', '-P', '', '-f', f])
+            return rc == 0 and D.blob_of_line(out)[0] == k.public_data
+        if not D.OPENSSL:
+            return None
+        der = D.openssl_public_der(
+            scr, data, 'pkcs8-pem' if data[:5] == b'-----' else 'pkcs8-der',
+            e['pw'])
+        return der == D.pyca_public_der(k.pyca_key.public_key())
+
+    for idx, (row, cls, outcome) in enumerate(rows):
+        if not only.row('encoding', row):
+            continue
+        scheme = row['scheme']
+        if scheme == 'openssh':
+            kt = row['kt']
+        elif scheme == 'dek':
+            kt = 'ec256'
+        else:
+            kt = ('ec256', 'ed25519', 'ec384')[idx % 3]
+        if kt not in kts:
+            continue
+        if row.get('iter') == 'large' and quick and idx % 2:
+            continue
+        k = D.key(kt)
+        e = D.encode_case(row, k)
+        if 'pem' in e:
+            data = e['pem']
+        elif idx % 2:
+            data = e['der']
+        else:
+            data = D.pem_wrap(e['typ'], e['der'])
+        stats['rows'] += 1
+        case = dict(row)
+        rp = {'kind': 'encoding', 'row': row, 'data_hex': data.hex()}
+        ctx.count(('encoding', idx), nontrivial=True)
+        try:
+            k2 = D.imp_priv(data, e['pw'])
+            exc = None
+        except Exception as ex:         # pylint: disable=broad-except
+            k2, exc = None, ex
+        same = k2 is not None and D.same_private(k2, k)
+        if exc is not None and not isinstance(exc, ValueError):
+            ctx.violation(kf_sig('encoding', step='exception', **case),
+                          f'import raises {type(exc).__name__}: {exc} '
+                          f'(neither a key nor a KeyImportError) for a '
+                          f'{cls} encoding: {case}', rp)
+            continue
+        if k2 is not None and not same:
+            ctx.violation(kf_sig('encoding', step='different-key', **case),
+                          f'{cls} encoding imported as a DIFFERENT key: '
+                          f'{case}', rp)
+            continue
+        if exc is not None and not isinstance(
+                exc, (asyncssh.KeyImportError, asyncssh.KeyEncryptionError)):
+            bump(stats['plain_ValueError'], f'{scheme}: {exc}'[:60])
+        observed = 'ok' if same else 'KeyImportError'
+        if observed != outcome:
+            ctx.divergence(f'encoding: model says {outcome}, code gives '
+                           f'{observed} ({exc}): {case}')
+        if cls == 'legal':
+            ask = not same or idx % sample_every == 0
+            if ask:
+                ref = reference_accepts(e, data, k, scheme)
+                if ref is False and not same:
+                    raise MachineryError(
+                        f'harness encoder wrote a file that neither asyncssh '
+                        f'nor the reference reader accepts: {case}')
+                if ref is False:
+                    raise MachineryError(
+                        f'harness encoder: reference reader refuses a file '
+                        f'classified legal: {case}')
+            if not same:
+                ctx.violation(
+                    kf_sig('encoding', step='legal-refused', **case),
+                    f'a legal encoding (the reference reader imports it) is '
+                    f'refused by asyncssh with the right passphrase: '
+                    f'{type(exc).__name__}: {exc}: {case}', rp)
+                continue
+            stats['legal_imported'] += 1
+            if scheme == 'openssh' and comment_of(k2) != e['comment']:
+                ctx.violation(kf_sig('encoding', step='comment', **case),
+                              f'comment {comment_of(k2)!r} instead of '
+                              f'{e["comment"]!r}: {case}', rp)
+            if e['pw'] is not None:
+                try:
+                    D.imp_priv(data, e['pw'][:-1] + 'X')
+                    ctx.violation(kf_sig('encoding', step='passphrase',
+                                         **case),
+                                  f'imported with a wrong passphrase: {case}',
+                                  rp)
+                except ValueError:
+                    pass
+                except Exception as ex:     # pylint: disable=broad-except
+                    ctx.violation(kf_sig('encoding', step='exception',
+                                         wrong_passphrase=True, **case),
+                                  f'wrong passphrase raises '
+                                  f'{type(ex).__name__}: {ex}: {case}', rp)
+        elif same:
+            bump(stats['lenient_accepts'],
+                 f'{scheme}/{cls}: ' + ', '.join(
+                     f'{a}={row[a]}' for a in ('keylen', 'ber', 'null', 'salt',
+                                               'ivlen', 'namecase', 'pad')
+                     if a in row and row[a] not in ('right', 'absent', 'der',
+                                                    True, 8, 'ok', 'upper',
+                                                    'seq')))
+        else:
+            bump(stats['refused'], f'{scheme}/{cls}')
+    ctx.notes.append(f'encoding choices: {stats}')
+    ctx.sample({'part': 'encoding', 'rows': stats['rows'],
+                'example': [r for r in rows if r[0]['scheme'] == 'pbes2' and
+                            r[0]['keylen'] == 'right' and
+                            r[0]['prf'] == 'sha256'][0]}, limit=12)
 
 
 def keylists(ctx, D, scr, rows, kts, quick, kf_sig, only):
